@@ -114,6 +114,14 @@ DOCS = {
 }
 
 # further documents for the drivers that go through the REAL text path only (harness/textpath.py); not used by the seam drivers
+from xsdata.models.datatype import XmlBase64Binary, XmlHexBinary  # noqa: E402
+
 REAL_DOCS = {
+    # anyType elements holding one value of each builtin family (written with its xsi:type, read back through StandardNode)
+    "anyhex": (AnyTyped, AnyTyped(v=XmlHexBinary(b"\x01\xfe\xff"))), "anyb64": (AnyTyped, AnyTyped(v=XmlBase64Binary(b"hello"))),
+    "anyqname": (AnyTyped, AnyTyped(v=QName("{urn:b}x"))), "anydate": (AnyTyped, AnyTyped(v=XmlDate(2020, 1, 2))), "anydec": (AnyTyped, AnyTyped(v=Decimal("1.50"))),
+    "anybool": (AnyTyped, AnyTyped(v=True)), "anyfloat": (AnyTyped, AnyTyped(v=1.5)), "anydatetime": (AnyTyped, AnyTyped(v=XmlDateTime(2020, 1, 2, 3, 4, 5))),
+    "anyduration": (AnyTyped, AnyTyped(v=XmlDuration("P1D"))), "anytime": (AnyTyped, AnyTyped(v=XmlTime(1, 2, 3))), "anyperiod": (AnyTyped, AnyTyped(v=XmlPeriod("--01"))),
+    "anyneg": (AnyTyped, AnyTyped(v=-7)), "anybig": (AnyTyped, AnyTyped(v=2**40)),
     "unionboxes": (UnionBoxes, UnionBoxes(item=BoxB(inner=Child(v=1, a="q"), n=2, tag="t"), items=[BoxA(inner=Child(v=3, a="r"), label="x", tag="u"), BoxB(inner=Child(v=4, a="s"), n=5)])),
 }
